@@ -28,7 +28,10 @@ CONSTANTS Rest,        \* the zone's records other than the SOA: a set of <<"rr"
           Reqs,        \* transfer requests [proto, qtype, id, have, n]  (n: the IXFR client's serial)
           Sources,     \* who feeds the stream: subset of {"server", "script"}
           ScriptMsgs,  \* messages anybody may put on the stream
-          MaxScript    \* at most this many of them
+          MaxScript,   \* at most this many of them
+          Flaws        \* {} = the client as specified; the as-is configurations weaken it the way the
+                       \* implementation was found to be weaker: "anySoaCloses", "plainEndIsSilent",
+                       \* "rcodeIgnored", "nonSoaStartEnds" (client), "singleMessage" (server)
 
 VARIABLES req, policy, cap, source,        \* chosen at the start
           sphase, unsent, wire, closed,    \* server and stream
@@ -100,6 +103,15 @@ SendClose ==
     /\ \E q \in {"echo", "empty"} : wire' = Append(wire, Msg(0, SeqOf(unsent) \o <<Soa>>, q))
     /\ unsent' = {} /\ sphase' = "done" /\ ServerKeep
 
+\* AS-IS only ("singleMessage"): the whole answer is one message whatever its capacity; what does
+\* not fit is cut off and the message is marked truncated
+SendCutOff ==
+    /\ "singleMessage" \in Flaws /\ Honest /\ sphase = "idle" /\ Transfers /\ Cardinality(Rest) + 2 > cap
+    /\ \E S \in SUBSET Rest :
+        /\ Cardinality(S) + 1 = cap
+        /\ wire' = Append(wire, [Msg(0, <<Soa>> \o SeqOf(S), "echo") EXCEPT !.tc = TRUE]) /\ unsent' = Rest \ S
+    /\ sphase' = "done" /\ ServerKeep
+
 (* ---- anybody else on the stream -------------------------------------------- *)
 ScriptEmit ==
     /\ source = "script" /\ closed = "open" /\ Len(wire) < MaxScript
@@ -114,7 +126,8 @@ Terminate ==
 \* one record; last = it is the last record of its message
 RecStep(st, r, last) ==
     CASE st.ph = "start" ->
-            IF IsSoa(r) THEN [st EXCEPT !.ph = "second", !.first = r] ELSE [st EXCEPT !.ph = "failed"]
+            IF IsSoa(r) THEN [st EXCEPT !.ph = "second", !.first = r]
+            ELSE [st EXCEPT !.ph = IF "nonSoaStartEnds" \in Flaws THEN "done" ELSE "failed"]
       [] st.ph = "second" ->
             IF ~IsSoa(r) THEN [st EXCEPT !.ph = "axfr"]
             ELSE IF r = st.first THEN [st EXCEPT !.ph = IF last THEN "done" ELSE "failed"]
@@ -122,20 +135,20 @@ RecStep(st, r, last) ==
             ELSE [st EXCEPT !.ph = "failed"]
       [] st.ph = "axfr" ->
             IF ~IsSoa(r) THEN st
-            ELSE [st EXCEPT !.ph = IF r = st.first /\ last THEN "done" ELSE "failed"]
+            ELSE [st EXCEPT !.ph = IF (r = st.first \/ "anySoaCloses" \in Flaws) /\ last THEN "done" ELSE "failed"]
       [] st.ph = "ixfr" ->
             IF ~IsSoa(r) THEN st
             ELSE IF st.par = 1 /\ r = st.first /\ last THEN [st EXCEPT !.ph = "done"]
             ELSE [st EXCEPT !.par = 1 - st.par]
       \* a record behind the closing SOA in the same message
-      [] st.ph = "done" -> [st EXCEPT !.ph = "failed"]
+      [] st.ph = "done" -> IF "nonSoaStartEnds" \in Flaws /\ st.first = <<>> THEN st ELSE [st EXCEPT !.ph = "failed"]
       [] st.ph = "failed" -> st
 
 RECURSIVE Fold(_, _, _)
 Fold(st, an, i) == IF i > Len(an) THEN st ELSE Fold(RecStep(st, an[i], i = Len(an)), an, i + 1)
 
 MsgStep(st, m, idx) ==
-    IF m.rc # 0 THEN [st EXCEPT !.ph = "failed"]
+    IF m.rc # 0 /\ "rcodeIgnored" \notin Flaws THEN [st EXCEPT !.ph = "failed"]
     ELSE LET st2 == Fold(st, m.an, 1) IN
          \* RFC 1995: the first message is a single SOA that is not ahead of the client
          IF idx = 1 /\ Mode = "ixfr" /\ st2.ph = "second" /\ Len(m.an) = 1 /\ st2.first[2] <= req.n
@@ -153,10 +166,12 @@ ClientTake ==
 \* the stream is over and the transfer is not: an error, however the stream ended
 ClientSeeEnd ==
     /\ cphase \in Live /\ taken = Len(wire) /\ closed # "open"
-    /\ cphase' = "failed" /\ items' = Append(items, "err")
+    /\ IF closed = "end" /\ "plainEndIsSilent" \in Flaws
+       THEN cphase' = "done" /\ UNCHANGED items          \* the stream just ends: nothing tells it from a whole transfer
+       ELSE cphase' = "failed" /\ items' = Append(items, "err")
     /\ UNCHANGED <<cfirst, cpar, taken>> /\ ClientKeep
 
-Next == Refuse \/ Decline \/ SendCurrentSoa \/ SendWhole \/ SendOpen \/ SendMore \/ SendClose
+Next == Refuse \/ Decline \/ SendCurrentSoa \/ SendWhole \/ SendOpen \/ SendMore \/ SendClose \/ SendCutOff
         \/ ScriptEmit \/ Terminate \/ ClientTake \/ ClientSeeEnd
 
 Spec == Init /\ [][Next]_vars
